@@ -170,6 +170,7 @@ type headingInfo struct {
 
 type built struct {
 	emptyPages []int // pages holding a paragraph or list without any word (layout form)
+	brackets   int   // number of "(" and ")" in the paragraph texts (nothing else of the document has any)
 	doc        *model.Document
 	tokens     []token
 	index      map[string][]int // word -> its occurrences in document order (more than one only for repeated headings)
@@ -250,12 +251,22 @@ func (c Case) build() *built {
 					b.emptyPages = append(b.emptyPages, p.Number)
 				}
 				ws := words('p', e.N, p.Number, -1)
+				// round 11: paragraphs with an odd Dot put every sentence in brackets - "(p00010 p00011.) (p00012 …" -, so
+				// that a sentence end is followed by a character that is neither a space nor a small letter
+				bracket := e.Dot%2 == 1 && len(ws) > 0
 				if e.Dot > 0 {
 					for i := range ws {
 						if (i+1)%e.Dot == 0 && i+1 < len(ws) {
 							ws[i] += "."
+							if bracket {
+								ws[i] += ")"
+								ws[i+1] = "(" + ws[i+1]
+							}
 						}
 					}
+				}
+				if bracket {
+					ws[0] = "(" + ws[0]
 				}
 				var tb strings.Builder
 				for i, w := range ws {
@@ -278,7 +289,11 @@ func (c Case) build() *built {
 					text += ":"
 				} else if e.Dot > 0 && len(ws) > 0 {
 					text += "."
+					if bracket {
+						text += ")"
+					}
 				}
+				b.brackets += strings.Count(text, "(") + strings.Count(text, ")")
 				if e.Pad {
 					text = " \n" + text + "  "
 				}
@@ -454,6 +469,11 @@ func checkCase(c Case) error {
 		ends[i] = sb.Len()
 	}
 	stream := sb.String()
+	// every word stands in the chunks exactly once (below), and so does what stands between the words: the brackets
+	// around the sentences of a paragraph are all there
+	if got := strings.Count(stream, "(") + strings.Count(stream, ")"); got != b.brackets {
+		return fmt.Errorf("the paragraphs of the document hold %d brackets, the chunk texts %d: %q", b.brackets, got, stream)
+	}
 	type found struct{ tok, chunk int }
 	var seq []found
 	chunkOf := func(off int) int {
